@@ -9,6 +9,8 @@
 //          request line, inside the headers, after the headers, inside the body} x stall duration
 //          {T-500 ms, T, T+500 ms, T+1 s} (T = the applicable time-out) x scan phase {0, 250 ms}, then the request
 //          is completed. Stall <= T => 200 and never 408; stall >= T+500 ms => 408 and the connection closed.
+//          The same grid again for the SECOND request of a keep-alive connection (first one served 750 ms after
+//          connect): its clock starts when the previous request completed.
 //   time2: two connections on the one worker, each stalled at its own point, the second opened 0/250/500 ms after the
 //          first: each gets its 408 within one scan period after ITS applicable time-out, never earlier.
 #include "common/netsim.h"
@@ -61,6 +63,7 @@ struct SizeCase
 struct TimeCase
 {
     int headerMs, bodyMs, stallPoint, stallIdx, phase;
+    int prior = 0; // 1: the timed request is the SECOND one on a keep-alive connection (first served 750 ms after connect)
 };
 static std::vector<SizeCase> gSize;
 static std::vector<TimeCase> gTime;
@@ -165,7 +168,7 @@ static void case_time(const TimeCase& c, vr::Ctx& ctx)
     int T      = c.stallPoint <= 2 ? std::min(c.headerMs, c.bodyMs) : c.bodyMs;
     int stalls[] = { T - 500, T, T + 500, T + 1000 };
     int stall  = stalls[c.stallIdx];
-    std::string what = std::string("header=") + std::to_string(c.headerMs) + "ms body=" + std::to_string(c.bodyMs) + "ms stall " + kStallNames[c.stallPoint] + " for " + std::to_string(stall) + "ms phase=" + std::to_string(c.phase);
+    std::string what = std::string(c.prior ? "second request on the connection: " : "") + "header=" + std::to_string(c.headerMs) + "ms body=" + std::to_string(c.bodyMs) + "ms stall " + kStallNames[c.stallPoint] + " for " + std::to_string(stall) + "ms phase=" + std::to_string(c.phase);
     ctx.note("time " + what);
     if (c.phase)
     {
@@ -175,6 +178,26 @@ static void case_time(const TimeCase& c, vr::Ctx& ctx)
     sim::ClientConn cl;
     cl.connect_to(srv.port);
     after(steps, true);
+    const int served = c.prior ? 1 : 0;
+    if (c.prior)
+    {
+        // an earlier request, served 750 ms into the connection's life: the next request's clock starts at its completion
+        for (int t = 0; t < 750; t += 250)
+        {
+            sim::tick(250);
+            after(steps, false);
+        }
+        cl.send_bytes(req);
+        after(steps, true);
+        cl.pump();
+        if (status_of(cl.received) != 200 || gRequests != 1)
+        {
+            ctx.violation("c14:time:first-request-on-the-connection-not-served", "{\"scenario\":" + vr::jstr(what) + ",\"status\":" + std::to_string(status_of(cl.received)) + "}");
+            srv.stop();
+            return;
+        }
+        cl.received.clear();
+    }
     if (stallAt[c.stallPoint] > 0)
     {
         cl.send_bytes(req.substr(0, stallAt[c.stallPoint]));
@@ -199,7 +222,7 @@ static void case_time(const TimeCase& c, vr::Ctx& ctx)
         ctx.violation(std::string("c14:time:408-before-the-time-out-elapsed:") + kStallNames[c.stallPoint], d);
     if (stall <= T)
     {
-        if (st != 200 || gRequests != 1)
+        if (st != 200 || gRequests != served + 1)
             ctx.violation(std::string("c14:time:request-completed-in-time-not-served:") + kStallNames[c.stallPoint], d);
     }
     else
@@ -217,11 +240,11 @@ static void case_time(const TimeCase& c, vr::Ctx& ctx)
             }
             if (!cl.peerClosed)
                 ctx.violation("c14:time:connection-not-closed-after-408", d);
-            if (gRequests != 0)
+            if (gRequests != served)
                 ctx.violation("c14:time:handler-ran-for-timed-out-request", d);
         }
     }
-    ctx.outcome(std::string(stall <= T ? "in-time" : "late") + " -> " + std::to_string(st));
+    ctx.outcome(std::string(c.prior ? "2nd request " : "") + (stall <= T ? "in-time" : "late") + " -> " + std::to_string(st));
     ctx.state(vr::hash_str(what + std::to_string(st)));
     ctx.nontrivial(vr::hash_str(what));
     cl.close_orderly();
@@ -329,7 +352,8 @@ int main(int argc, char** argv)
         for (int sp = 0; sp < 5; ++sp)
             for (int si = 0; si < 4; ++si)
                 for (int ph : { 0, 250 })
-                    gTime.push_back({ p[0], p[1], sp, si, ph });
+                    for (int prior = 0; prior < 2; ++prior)
+                        gTime.push_back({ p[0], p[1], sp, si, ph, prior });
     int pairs2[3][2] = { { 1000, 3000 }, { 3000, 1000 }, { 1000, 1000 } };
     for (auto& p : pairs2)
         for (int ka = 0; ka < 5; ++ka)
